@@ -31,11 +31,13 @@ pub enum Stage {
 	Track,
 	Send,
 	Main,
+	/// the volume of the track's route to the send track (applied per chunk, not per frame)
+	Route,
 }
 
 const DC: f32 = 0.25;
 
-const STAGES: [Stage; 5] = [Stage::Sound, Stage::Fx, Stage::Track, Stage::Send, Stage::Main];
+const STAGES: [Stage; 6] = [Stage::Sound, Stage::Fx, Stage::Track, Stage::Send, Stage::Main, Stage::Route];
 
 #[derive(Clone, Debug, Serialize, Deserialize)]
 pub struct StageSet {
@@ -57,6 +59,10 @@ pub struct StageCase {
 	pub route: Option<f32>,
 	pub callbacks: Vec<usize>,
 	pub sets: Vec<StageSet>,
+	/// the sub-track is paused (instantly) before callback p and resumed (instantly) before callback r:
+	/// its sounds and effects stand still in between, its own volume and routes do not
+	#[serde(default)]
+	pub pause: Option<(usize, usize)>,
 }
 
 pub fn gen(rng: &mut Rng, tier: Tier) -> StageCase {
@@ -100,6 +106,15 @@ pub fn gen(rng: &mut Rng, tier: Tier) -> StageCase {
 		})
 		.collect();
 	sets.sort_by_key(|s| s.at);
+	if route.is_none() {
+		sets.retain(|s| s.stage != Stage::Route);
+	}
+	let pause = if rng.chance(0.35) && n_cb >= 4 {
+		let p = rng.urange(1, n_cb - 2);
+		Some((p, rng.urange(p + 1, n_cb)))
+	} else {
+		None
+	};
 	StageCase {
 		sample_rate,
 		ibs,
@@ -107,6 +122,7 @@ pub fn gen(rng: &mut Rng, tier: Tier) -> StageCase {
 		route,
 		callbacks,
 		sets,
+		pause,
 	}
 }
 
@@ -207,8 +223,13 @@ pub fn run(case: &StageCase) -> CaseResult {
 		RefParam::new(case.initial[2]),
 		RefParam::new(case.initial[3]),
 		RefParam::new(case.initial[4]),
+		RefParam::new(case.route.unwrap_or(-60.0)),
 	];
-	let route_amp = case.route.map(|r| amp(r as f64)).unwrap_or(0.0);
+	let send_id = send.id();
+	let instant = Tween {
+		duration: Duration::ZERO,
+		..Default::default()
+	};
 	let dt = 1.0 / case.sample_rate as f64;
 	let mut out = Vec::new();
 	let mut sets = case.sets.iter().peekable();
@@ -232,11 +253,24 @@ pub fn run(case: &StageCase) -> CaseResult {
 				Stage::Track => track.set_volume(target, tween),
 				Stage::Send => send.set_volume(target, tween),
 				Stage::Main => manager.main_track().set_volume(target, tween),
+				Stage::Route => {
+					let _ = track.set_send(send_id, target, tween);
+				}
 			}
 			let k = STAGES.iter().position(|x| *x == s.stage).unwrap();
 			params[k].set(s.target, s.dur, s.easing);
 			sets.next();
 		}
+		if let Some((p, r)) = case.pause {
+			if cb == p {
+				track.pause(instant);
+			}
+			if cb == r {
+				track.resume(instant);
+			}
+		}
+		let paused = case.pause.map(|(p, r)| cb >= p && cb < r).unwrap_or(false);
+		let resuming = case.pause.map(|(_, r)| cb == r).unwrap_or(false);
 		let rep = device.callback(frames, 2, &mut out);
 		if let Some(p) = rep.panic {
 			res.fail(Violation::new("panic", format!("audio-panic: {}", panic_signature(&p)), p));
@@ -246,8 +280,29 @@ pub fn run(case: &StageCase) -> CaseResult {
 		let mut chunk = 0usize;
 		while at < frames {
 			let n = (frames - at).min(case.ibs);
-			for p in params.iter_mut() {
+			for (k, p) in params.iter_mut().enumerate() {
+				// a paused track does not process its sounds and effects: their tweens stand still;
+				// its own volume and its routes, the send track and the main track go on
+				if paused && (STAGES[k] == Stage::Sound || STAGES[k] == Stage::Fx) {
+					p.prev = p.cur;
+					continue;
+				}
 				p.advance(dt * n as f64);
+			}
+			if paused {
+				if let Some(i) = (0..n).find(|i| out[2 * (at + i)] != 0.0 || out[2 * (at + i) + 1] != 0.0) {
+					res.fail(Violation::new("rendered-stage", "paused-track-audible", format!("callback {cb} chunk {chunk} frame {i}: output {} while the only sounding track is paused", out[2 * (at + i)])));
+					break 'outer;
+				}
+				at += n;
+				chunk += 1;
+				continue;
+			}
+			if resuming && chunk == 0 {
+				// (the resume fade ramps over this chunk)
+				at += n;
+				chunk += 1;
+				continue;
 			}
 			let any_moving = params.iter().any(|p| p.moving());
 			if any_moving {
@@ -259,12 +314,19 @@ pub fn run(case: &StageCase) -> CaseResult {
 			for i in 0..n {
 				let g: Vec<(f64, f64)> = params.iter().map(|p| p.gain(i, n)).collect();
 				// (the device output is clipped to [-1, 1])
-				let total = |g: [f64; 5]| -> f64 {
+				let total = |g: [f64; 5], route: f64| -> f64 {
 					let pre = g[0] * g[1] * g[2];
-					(g[4] * (pre + g[3] * route_amp * pre) * DC as f64).min(1.0)
+					(g[4] * (pre + g[3] * route * pre) * DC as f64).min(1.0)
 				};
-				let want_lo = total([g[0].0, g[1].0, g[2].0, g[3].0, g[4].0]);
-				let want = total([g[0].1, g[1].1, g[2].1, g[3].1, g[4].1]);
+				// (the route volume is taken once per chunk: anywhere between its value before and after)
+				let (r_lo, r_hi) = if case.route.is_some() {
+					let (a, b) = (amp(params[5].prev.min(params[5].cur) - 1e-4), amp(params[5].prev.max(params[5].cur) + 1e-4));
+					(a, b)
+				} else {
+					(0.0, 0.0)
+				};
+				let want_lo = total([g[0].0, g[1].0, g[2].0, g[3].0, g[4].0], r_lo);
+				let want = total([g[0].1, g[1].1, g[2].1, g[3].1, g[4].1], r_hi);
 				let (l, r) = (out[2 * (at + i)] as f64, out[2 * (at + i) + 1] as f64);
 				trace.f32(l as f32);
 				let tol = 3e-5 * want.abs() + 2e-7;
